@@ -109,7 +109,9 @@ def run_obligation(obl, pool):
     """Dynamic work splitting: a task explores a sub-tree depth first for at most `max_paths` paths and hands the
     unexplored sibling prefixes back; the scheduler redistributes them.  Budgets double as the frontier widens."""
     t0 = time.time()
-    deadline = t0 + obl.budget_s
+    # VERIF_BUDGET_SCALE (development aid): scales every wall budget, e.g. 0.05 to smoke-test a whole tier for crashes of the machinery;
+    # a run cut short this way reports exhaustive_within_bound false like any other run that ran out of budget
+    deadline = t0 + obl.budget_s * float(os.environ.get("VERIF_BUDGET_SCALE", "1") or 1)
     res = {"name": obl.name, "desc": obl.desc, "bounds": obl.bounds, "stubs": obl.stubs,
            "assumptions": obl.assumptions, "outside": obl.outside, "errors": []}
     stats = {}
